@@ -135,6 +135,23 @@ static void stage_long(Run &R) {
     R.space("C02 length sweep: 29 shapes (quote / dot / escape / fold / blank / high byte before, after or inside a run) x run lengths 1.." + std::to_string(maxn) + " x 3 modes", total * R.a.nworkers * 3);
 }
 
+// (f) deeper enumeration over the symbols of quoted pairs and folding only: all strings of length <= 8 (thorough <= 9) over {" \ CR LF SP . a}
+static void stage_folds(Run &R) {
+    static const char AL[] = {'"', '\\', '\r', '\n', ' ', '.', 'a'};
+    const int K = sizeof AL; int maxlen = R.a.thorough ? 9 : 8; uint64_t total = 0, idx = 0; std::vector<int> d(maxlen, 0);
+    for (int len = 7; len <= maxlen; len++) {   // lengths 1..6 are covered by the 13-symbol enumeration
+        uint64_t cnt = 1; for (int i = 0; i < len; i++) cnt *= K; total += cnt * 3; std::fill(d.begin(), d.end(), 0);
+        for (uint64_t n = 0; n < cnt; n++) {
+            if ((int) ((idx++ / 128) % R.a.nworkers) == R.a.worker && AL[d[0]] != '.') {
+                Bytes b; for (int i = 0; i < len; i++) b += AL[d[i]];
+                for (int mode = 0; mode < 3; mode++) if (!run_one(R, mode, b)) return;
+            }
+            for (int i = len - 1; i >= 0; i--) { if (++d[i] < K) break; d[i] = 0; }
+        }
+    }
+    R.space("C02 all strings of length 7.." + std::to_string(maxlen) + " over the quoted-pair / folding symbols {\" \\ CR LF SP . a} x 3 modes", total);
+}
+
 // corpus: the repository's own local-part lines
 static void stage_corpus(Run &R) {
     for (const char *fn : {"localpart-ascii.txt", "localpart-utf8.txt", "localpart-utf8-rfc20.txt"}) {
@@ -165,6 +182,7 @@ int main(int argc, char **argv) {
     else if (R.a.stage == "random") stage_random(R);
     else if (R.a.stage == "corpus") stage_corpus(R);
     else if (R.a.stage == "long") stage_long(R);
+    else if (R.a.stage == "folds") stage_folds(R);
     else { fprintf(stderr, "unknown stage %s\n", R.a.stage.c_str()); return 2; }
     return finish(R);
 }
